@@ -10,7 +10,7 @@ use simkit::sched::{self, CancelAt, Cancelled, Kind as PK};
 use crate::{
     model::{Failure, Model},
     program::Val,
-    queries::{INJECTED_PANIC, In, query_node},
+    queries::{HelperCfg, HelperEv, INJECTED_PANIC, In, query_node},
     run::{Runner, SimCfg, fail},
     scenario::{Fault, Op, SessStep, Target},
 };
@@ -23,6 +23,16 @@ enum RwEv {
     TrackedCall(usize, usize),
     TrackedReturn(usize, usize),
     Result(usize, usize, u32, Val),
+    Abandoned(usize, usize, u32),
+    Helper(HelperEv),
+}
+
+fn mix3(salt: u64, a: u64, b: u64, c: u64) -> u64 {
+    let mut x = salt ^ a.wrapping_mul(0x9E37_79B9_7F4A_7C15) ^ b.wrapping_mul(0xC2B2_AE3D_27D4_EB4F)
+        ^ c.wrapping_mul(0x1656_67B1_9E37_79F9);
+    x ^= x >> 31;
+    x = x.wrapping_mul(0xD6E8_FEB8_6659_FD93);
+    x ^ (x >> 29)
 }
 
 impl<'a, C: SimCfg> Runner<'a, C> {
@@ -171,11 +181,21 @@ impl<'a, C: SimCfg> Runner<'a, C> {
         &mut self,
         sessions: &[(Vec<SessStep>, bool)],
         readers: &[Vec<Vec<u32>>],
+        detach: u64,
     ) -> Result<(), Failure> {
         self.tracked = None;
         let engine = self.engine().clone();
         let prog = Arc::new(self.sc.program.clone());
         let log: Arc<Mutex<Vec<RwEv>>> = Arc::new(Mutex::new(Vec::new()));
+        if detach != 0 {
+            let mut inputs = self.sc.program.of_kind(crate::program::Kind::In);
+            inputs.truncate(3);
+            let l2 = log.clone();
+            *self.h.helper.lock() = Some(HelperCfg {
+                inputs,
+                sink: Arc::new(move |e| l2.lock().push(RwEv::Helper(e))),
+            });
+        }
         // input states S_0 .. S_k
         let mut states: Vec<HashMap<u32, Val>> = vec![self.model.inputs.clone()];
         for (steps, _) in sessions {
@@ -224,10 +244,20 @@ impl<'a, C: SimCfg> Runner<'a, C> {
                     log.lock().push(RwEv::TrackedCall(i, l));
                     let te = engine.clone().tracked().await;
                     log.lock().push(RwEv::TrackedReturn(i, l));
-                    for r in roots {
+                    for (q, r) in roots.iter().enumerate() {
                         sched::task_point("h_reader_query", PK::Harness).await;
-                        let v = query_node(&te, &prog, *r).await;
-                        log.lock().push(RwEv::Result(i, l, *r, v));
+                        let m = mix3(detach, i as u64, l as u64, q as u64);
+                        let n = if detach != 0 && m % 2 == 0 { 1 + (m >> 8) % 12 } else { 0 };
+                        match CancelAt::new(query_node(&te, &prog, *r), n).await {
+                            Cancelled::Completed(v, _) => {
+                                log.lock().push(RwEv::Result(i, l, *r, v));
+                            }
+                            Cancelled::Dropped(_) => {
+                                // the user gives up and lets go of the engine
+                                log.lock().push(RwEv::Abandoned(i, l, *r));
+                                break;
+                            }
+                        }
                     }
                     drop(te);
                 }
@@ -242,6 +272,7 @@ impl<'a, C: SimCfg> Runner<'a, C> {
                 panicked = Some(format!("reader task: {e}"));
             }
         }
+        *self.h.helper.lock() = None;
         if let Some(p) = panicked {
             return Err(fail("panic", p));
         }
@@ -299,6 +330,56 @@ impl<'a, C: SimCfg> Runner<'a, C> {
                 }
             }
         }
+        // detached helpers: every helper is a reader of its own; whatever it
+        // read must belong to one committed input state (no lower bound is
+        // claimed: the helper does not know whose engine it cloned)
+        let mut helpers: Vec<u64> = Vec::new();
+        for e in &evs {
+            if let RwEv::Helper(HelperEv::Start(h)) = e {
+                helpers.push(*h);
+            }
+        }
+        let abandoned = evs.iter().filter(|e| matches!(e, RwEv::Abandoned(..))).count() as u64;
+        let mut helpers_outliving = 0u64;
+        for hid in &helpers {
+            let Some(done) = pos(&|e| matches!(e, RwEv::Helper(HelperEv::Done(x)) if x == hid)) else {
+                return Err(fail(
+                    "panic",
+                    format!("helper task {hid} of an executor started and never finished its reads"),
+                ));
+            };
+            let start = pos(&|e| matches!(e, RwEv::Helper(HelperEv::Start(x)) if x == hid)).unwrap();
+            if evs[start..done].iter().any(|e| matches!(e, RwEv::Abandoned(..))) {
+                helpers_outliving += 1;
+            }
+            let hi = (1..=k)
+                .take_while(|j| {
+                    pos(&|e| matches!(e, RwEv::SessionCall(x) if x == j)).is_some_and(|p| p < done)
+                })
+                .count();
+            let reads: Vec<(u32, Val)> = evs
+                .iter()
+                .filter_map(|e| match e {
+                    RwEv::Helper(HelperEv::Read(x, n, v)) if x == hid => Some((*n, v.clone())),
+                    _ => None,
+                })
+                .collect();
+            let ok = (0..=hi).any(|cand| {
+                reads.iter().all(|(n, v)| states[cand].get(n).is_some_and(|s| s == v))
+            });
+            if !ok {
+                return Err(fail(
+                    "snapshot_inconsistent",
+                    format!(
+                        "helper task {hid} (a clone of an executor's engine in a spawned task): reads {reads:?} are not the inputs of any single committed state S_k with k <= {hi} (states {:?})",
+                        &states[0..=hi]
+                    ),
+                ));
+            }
+        }
+        *self.stats.probes.entry("c04_helpers_checked".into()).or_insert(0) += helpers.len() as u64;
+        *self.stats.probes.entry("c04_requests_abandoned".into()).or_insert(0) += abandoned;
+        *self.stats.probes.entry("c04_helpers_alive_at_abandon".into()).or_insert(0) += helpers_outliving;
         *self.stats.probes.entry("c04_lives_checked".into()).or_insert(0) += lives_checked;
         *self.stats.probes.entry("c04_lives_overlapping_session".into()).or_insert(0) += lives_overlapping;
         // bring the sequential model up to date
